@@ -9,7 +9,9 @@
 From Coq Require Import List NArith Bool String.
 From Coq Require Import Strings.Byte.
 From Falco Require Import Base.Res Base.Bytes Base.Utf8 Model.Escape Proofs.EscapeProofs Proofs.EscapeExamples.
-From Falco Require Proofs.C20Lex Proofs.C20Table Proofs.C20Acl Proofs.C20Backend Model.ParseLit Model.LexParse Model.ParseBase Model.Ast.
+From Coq Require Import Permutation Sorted ZArith.
+From Falco Require Import Model.Snippets Proofs.SnippetsProofs.
+From Falco Require Proofs.C20Lex Proofs.C20Table Proofs.C20Acl Proofs.C20Backend Proofs.C20Rules Model.Rules Model.ParseLit Model.LexParse Model.ParseBase Model.Ast.
 Import ListNotations.
 Local Open Scope string_scope.
 
@@ -95,6 +97,56 @@ Theorem C20_director_roundtrip :
               C20Backend.director_of v = C20Backend.director_view name ty retries quorum members.
 Proof. exact C20Backend.director_parses_real. Qed.
 
+(* ---- VCL snippets (Model/Snippets.v: fetchVCLSnippets after the repair).  [scoped ty l] is the
+   list of the snippets of type ty a service with snippets l (in the order fetched) gets.
+   Sorted and stable: priorities never decrease along the list, and for EVERY priority p the
+   snippets of priority p in the list are exactly the snippets of that type and priority in the
+   order they were given - together: the list is the stable sort by priority of the snippets of
+   the type.  Complete: the list is a rearrangement of the snippets of the type - each appears, as
+   often as given (once when distinct), and nothing else.  Type none: with pairwise different names
+   (names that collide only after sanitising ARE different) every snippet is found under its own
+   name as written. *)
+Theorem C20_snippets_sorted_stable : forall ty l,
+  StronglySorted le_prio (scoped ty l) /\
+  forall p, filter (prio_is p) (scoped ty l) = filter (prio_is p) (filter (has_type ty) l).
+Proof. exact snippets_sorted_stable. Qed.
+
+Theorem C20_snippets_complete : forall ty l, Permutation (scoped ty l) (filter (has_type ty) l).
+Proof. exact snippets_complete. Qed.
+
+Theorem C20_snippets_none_by_name : forall l s,
+  In s l -> is_none s = true -> NoDup (map s_name (filter is_none l)) -> include_of (s_name s) l = Some s.
+Proof. exact none_by_name. Qed.
+
+(* ---- header rules (Model/Rules.v: headerTemplate for the actions set and delete, every type,
+   with and without ignore_if_set, no condition), END TO END through the lexer, pump and parser
+   models in snippet mode: the text parses to exactly the intended statement - `set T = SRC;` or
+   `unset T;`, inside `if (!T) { ... }` with ignore_if_set - where T is <object>.<destination>
+   (one identifier for the lexer: dots, dashes, colons allowed) and SRC, which is VCL the user wrote,
+   is a variable or a string literal whose escapes decode ([act_ok]).  Not proved: append / regex /
+   regex_repeat, sources that are larger expressions, conditions (correspondence only). *)
+Theorem C20_header_rule_parses_real : forall fok ty dest ignore a,
+  C20Table.ident_name (Rules.target_of ty dest) -> C20Rules.act_ok a ->
+  LexParse.parse_source fok LexParse.MSnippet (Rules.render_rule ty dest ignore (C20Rules.act_of a)) =
+  ParseBase.POK (Ast.Vcl (C20Rules.rule_ast (Rules.target_of ty dest) ignore a) true).
+Proof. exact C20Rules.rule_parses_real. Qed.
+
+(* ---- response objects.  PARTIAL: proved are (1) the content-type statement end to end - for every
+   NUL-free UTF-8 content type the generated `set obj.http.Content-Type = DQ quote(ct) DQ;` parses to
+   a set statement whose string value is ct - and (2) the body's long string: the delimiter the
+   helper chooses is one the body cannot close (DQ delimiter right-brace does not occur in it).
+   MISSING: lexing the long string itself through Model/Lex.v (it pushes OPEN / STRING / CLOSE tokens
+   into the peek queue, outside the cursor invariant of Proofs/C20Lex.v) and the surrounding
+   if / set obj.status / return statements; the correspondence reads body, status and content type
+   back from the real parser on every generated response object. *)
+Theorem C20_response_object_roundtrip_partial : forall fok ct body t,
+  text_ok ct -> Rules.longstring body = Some t ->
+  LexParse.parse_source fok LexParse.MSnippet (Rules.render_content_type ct) =
+    ParseBase.POK (Ast.Vcl [Ast.SSet C20Rules.tk_set (C20Table.tk_ident Rules.ct_target) C20Backend.tk_assign
+                                     (Ast.EString (C20Table.tk_string ct) ct) C20Acl.tk_semi] true) /\
+  exists d, t = ([x7b] ++ d ++ [x22] ++ body ++ [x22] ++ d ++ [x7d])%list /\ Rules.contains (Rules.closer d) body = false.
+Proof. exact C20Rules.response_object_roundtrip_partial. Qed.
+
 (* the templates before repository commit 011f4ea (values interpolated as they are) *)
 Theorem C20_unquoted_refuted_percent :
   exists name items, parse_table (render_dict_raw name items) <> OK items /\
@@ -122,6 +174,11 @@ Print Assumptions C20_table_parses_real.
 Print Assumptions C20_acl_roundtrip.
 Print Assumptions C20_backend_roundtrip.
 Print Assumptions C20_director_roundtrip.
+Print Assumptions C20_snippets_sorted_stable.
+Print Assumptions C20_snippets_complete.
+Print Assumptions C20_snippets_none_by_name.
+Print Assumptions C20_header_rule_parses_real.
+Print Assumptions C20_response_object_roundtrip_partial.
 Print Assumptions C20_acl_comment_one_line.
 Print Assumptions C20_unquoted_refuted_percent.
 Print Assumptions C20_unquoted_refuted_dquote.
